@@ -112,7 +112,7 @@ def items(tier, with_models=False):
     # literals as defaults
     for t in valid_param_types(tier):
         for via_alias in (False, True):
-            for v in valid_literals(t):
+            for v in valid_literals(t, rich=True):
                 yield pack('default%s|%s=%r' % ('@alias' if via_alias else '', render.texpr(t), v), True, None,
                            default_model(t, v, via_alias))
             if with_models:
